@@ -1,4 +1,5 @@
 import CnlProofs.Static
+import CnlProofs.OverflowFloat
 /-!
 # C11 — static_integer and static_number are never silently wrong
 
@@ -24,7 +25,9 @@ Per node: `binOp_exact` (`+ − *`), `div_rounded`, `neg_exact`, `cmp_exact` (+ 
 `¬ KnownDefect c E x`, the complement of the two **open** defect classes; each class is refuted from
 its witness: `narrowing_drops_all_digits_refuted`, `rounded_value_exceeds_intermediate_refuted`.
 Histories: `never_silently_wrong` (induction over `SExpr`, i.e. histories of any length) and its
-corollaries.  Nothing is left unproved; the part of the property that fails is exactly the part the two
+corollaries.  Construction from floating point: `float_construct_flag_iff` (the overflow test signals iff
+the real scaled value is outside the declared range; the as-found test of the repaired finding
+`C11.float_at_limit_not_flagged` is refuted by `float_at_limit_refuted`); the rounding that follows is C09's.  Nothing is left unproved; the part of the property that fails is exactly the part the two
 refutations exhibit.
 -/
 namespace Cnl.C11
@@ -409,5 +412,37 @@ example : ∀ m, evalModel ⟨.nrst, .thr⟩ h3 ≠ .ill m := by
 example : ¬ SideOK ⟨.nrst, .sat⟩ (.cvt 6 1 (.lit ⟨5, -2, 31⟩)) ∧
     evalModel ⟨.nrst, .sat⟩ (.cvt 6 1 (.lit ⟨5, -2, 31⟩)) = .ok ⟨6, 1, 3⟩ ∧
     evalIdeal ⟨.nrst, .sat⟩ (.cvt 6 1 (.lit ⟨5, -2, 31⟩)) = .val 1 4 := by decide
+
+/-! ## construction from floating point: the overflow test against the declared limits
+
+`static_number<D, E>{x}` scales `x` by `2^-E` in the floating type and tests the scaled value `q` against
+the limits `±(2^D − 1)` of the `elastic_integer<D>` underneath (`Overflow.DestLimits.elastic D`) before the
+rounding conversion of C09 stores it (`C11 fcvt` lines of the correspondence table).  `RealGt`/`RealLt`
+compare the real number `(-1)^s · m · 2^e` with an integer (`CnlProofs/OverflowFloat.lean`). -/
+
+/-- For every floating format, every digit count `D` with `2^D` finite in it, and every finite scaled
+operand: the repaired test signals **iff the real value is outside the declared range** `±(2^D − 1)` —
+so nothing above `2^D − 1` reaches the rounding conversion (which before the repair stored `2^D`, or ran
+an out-of-range cast, for values in `(2^D − 1, float(2^D − 1)]`). -/
+theorem float_construct_flag_iff (f : Fmt) (hf : FloatP.FmtOk f) (D : Nat) (hmax : (D : Int) ≤ f.emax)
+    (s : Bool) (m : Nat) (e : Int) (hm : m < 2^f.prec) :
+    Overflow.isOverflowConvertFloat f (.elastic D) true (.fin s m e) = decide (Overflow.RealGt s m e (2^D - 1)) ∧
+    Overflow.isOverflowConvertFloat f (.elastic D) false (.fin s m e) = decide (Overflow.RealLt s m e (-(2^D - 1))) :=
+  ⟨Overflow.flag_pos_iff f hf _ (Overflow.goodDest_elastic D) hmax s m e hm,
+   Overflow.flag_neg_iff f hf _ (Overflow.goodDest_elastic D) hmax s m e hm⟩
+
+example : Overflow.isOverflowConvertFloat binary32 (.elastic 31) true (.fin false 8388608 8) = true ∧
+    Overflow.isOverflowConvertFloat binary32 (.elastic 31) false (.fin true 8388608 8) = true ∧
+    Overflow.isOverflowConvertFloat binary32 (.elastic 31) true (.fin false 16777215 7) = false ∧
+    Overflow.isOverflowConvertFloat binary64 (.elastic 5) true (.fin false 8866461766385664 (-48)) = true := by
+  decide +kernel
+
+/-- repaired finding `C11.float_at_limit_not_flagged`: **as found** (`isOverflowConvertFloatOrig`) neither
+`float 2^31` nor `float -2^31` was flagged for 31 declared digits although both are outside `±(2^31 − 1)` -/
+theorem float_at_limit_refuted :
+    Overflow.isOverflowConvertFloatOrig binary32 (.elastic 31) true (.fin false 8388608 8) = false ∧
+    Overflow.RealGt false 8388608 8 (2^31 - 1) ∧
+    Overflow.isOverflowConvertFloatOrig binary32 (.elastic 31) false (.fin true 8388608 8) = false ∧
+    Overflow.RealLt true 8388608 8 (-(2^31 - 1)) := by decide +kernel
 
 end Cnl.C11
